@@ -44,6 +44,18 @@ static std::vector<uint8_t> rnd_bytes(Rng &r, size_t n, int style = -1) {
     return v;
 }
 
+// payloads with structure: all zero, zeros at the end, something that looks like an ACF header, a two-byte sync pattern
+static std::vector<uint8_t> structured_bytes(Rng &r, size_t n) {
+    std::vector<uint8_t> v = rnd_bytes(r, n, 1);
+    switch (r.below(4)) {
+    case 0: std::fill(v.begin(), v.end(), 0); break;
+    case 1: for (size_t i = n - std::min<size_t>(n, 1 + r.below(8)); i < n; i++) v[i] = 0; break;
+    case 2: { static const uint8_t hdr[] = {0x02, 0x06, 0x20, 0x00, 0x00, 0x00, 0x00, 0x00}; for (size_t i = 0; i < n && i < 8; i++) v[i] = hdr[i]; break; }
+    default: for (size_t i = 0; i < n; i++) v[i] = (i & 1) ? 0x55 : 0xAA; break;
+    }
+    return v;
+}
+
 // ------------------------------------------------------------------ CAN frames
 static CanRec gen_can_frame(Rng &r, bool fd) {
     CanRec c;
@@ -65,7 +77,7 @@ static CanRec gen_can_frame(Rng &r, bool fd) {
         if (r.chance(0.2)) c.can_id |= CAN_RTR_FLAG;
         if (c.len == 8 && r.chance(0.2)) c.dlc8 = (uint8_t)r.range(9, 15);  // controller reports the raw DLC of an 8-byte frame
     }
-    auto d = rnd_bytes(r, c.len, r.chance(0.7) ? 1 : -1);
+    auto d = r.chance(0.12) ? structured_bytes(r, c.len) : rnd_bytes(r, c.len, r.chance(0.7) ? 1 : -1);
     memcpy(c.data, d.data(), c.len);
     return c;
 }
@@ -179,8 +191,9 @@ static std::string gen_tunnel(uint64_t seed, uint64_t idx, bool thorough) {
     uint64_t clkgran = r.chance(0.25) ? (uint64_t[]){1000, 1000000, 4000000, 10000000}[r.below(4)] : 1;
     int stackfill = r.chance(0.6) ? 0xA5 : (int[]){0x00, 0x00, 0xFF, 0x01}[r.below(4)];
     int port = r.chance(0.3) ? (int)(int[]){1025, 17221, 20000, 40000, 65535}[r.below(5)] : 0;
-    o.line(strf("cfg scen=tunnel port=%d longnames=%d argorder=%d stackfill=%d udp=%d fd=%d tscf=%d count=%d o0=%d ethpad=%d read0=%.2f clkgran=%llu sched=%s lat=%llu:%llu cost=%llu:%llu qcap=%zu tend=%llu rseed=0x%llx skew0=%lld skew1=%lld",
-                port, (int)r.chance(0.3), (int)r.coin(), stackfill, udp, fd, tscf, count, (int)r.chance(0.3), (int)(!udp && r.chance(0.4)), read0, (unsigned long long)clkgran, sched_str(r).c_str(), (unsigned long long)lat_lo, (unsigned long long)lat_hi,
+    int addr = r.chance(0.3) ? (int)r.range(1, 3) : 0;  // destination MAC / IP address variants (multicast bit, bytes >= 0x80, octets 0 and 255)
+    o.line(strf("cfg scen=tunnel addr=%d port=%d longnames=%d argorder=%d stackfill=%d udp=%d fd=%d tscf=%d count=%d o0=%d ethpad=%d read0=%.2f clkgran=%llu sched=%s lat=%llu:%llu cost=%llu:%llu qcap=%zu tend=%llu rseed=0x%llx skew0=%lld skew1=%lld",
+                addr, port, (int)r.chance(0.3), (int)r.coin(), stackfill, udp, fd, tscf, count, (int)r.chance(0.3), (int)(!udp && r.chance(0.4)), read0, (unsigned long long)clkgran, sched_str(r).c_str(), (unsigned long long)lat_lo, (unsigned long long)lat_hi,
                 (unsigned long long)r.range(50, 500), (unsigned long long)r.range(500, 20000), qcap, (unsigned long long)tend,
                 (unsigned long long)r.next(), (long long)big_skew(r), (long long)big_skew(r)));
     for (auto &f : frames) o.line(f);
